@@ -14,7 +14,7 @@ def make_jobs(rnd, tier):
     TRUTH = {"assert_lt": lambda a, b: a < b, "assert_le": lambda a, b: a <= b, "assert_eq": lambda a, b: a == b, "assert_ne": lambda a, b: a != b,
              "assert_gt": lambda a, b: a > b, "assert_ge": lambda a, b: a >= b}
     def add(p, n, prog, ins, op, kinds, res=0, truth=None):
-        jobs.append(dict(cfg=dict(p=p, n=n, res=res, ign=0), prog=prog, ins=ins, op=op, kinds=kinds, truth=truth))
+        jobs.append(dict(cfg=dict(p=p, n=n, res=res, ign=0), prog=prog, ins=ins, op=op, kinds=kinds, truth=truth, pybool=len(jobs) % 2))   # half of the runs pass True / False for 1 / 0
     for (p, n) in fields:
         lim = 2 ** n
         B = min(lim + 1, (p - lim - 2) // 2)        # keep every difference small relative to p (no wrap-around)
